@@ -353,6 +353,22 @@ def rand_pfc_string(rng, imgs):
     return ''.join(parts)
 
 
+# ---- tag clean-ups of HTML5 / XHTML processFileContent ---------------------------------------------------------------------
+TAG_ATOMS = ['<p>', '</p>', '<P>', '</P>', '<td>', '<td class="x">', '</td>', '<TD>', '</Td>', '<th>', '</th>', '<tdx>', '<br>', '<br/>', '<BR >',
+             '<img src="a/b" >', '<hr  /  >', '<col>', '<colgroup>', '<link rel="x">', '<meta a=b', '<br\u00e9>', '<td\u00e9>']
+WS_ATOMS = [' ', '\n', '\t', '\u00a0', '\u2003', '\x0b', '\x0c', '\x1c', '\u0085', '\r']
+TXT_ATOMS = ['x', '\u00e9', '&amp;', '&lt;', '>', '/', '&nbsp;']
+PT_SMALL = ['<p>', '</p>', '<td a>', '</td>', '</th>', '<br', '>', ' ', '\u00a0', 'x', '/']
+
+
+def rand_tagstring(rng):
+    parts = []
+    for _ in range(rng.choice([1, 2, 3, 4, 6, 9])):
+        r = rng.random()
+        parts.append(rng.choice(TAG_ATOMS) if r < 0.5 else rng.choice(WS_ATOMS) if r < 0.8 else rng.choice(TXT_ATOMS))
+    return ''.join(parts)
+
+
 # ---- synthetic trees ---------------------------------------------------------------------------------
 # node: ['t', markup, s] | ['e', name, uni (None | [markup, s]), [attr fragments: list of node lists], [children]]
 NAMES = ['na', 'nb', 'nc', 'nd']
@@ -427,6 +443,12 @@ def wire_piece(p):
             'esc': lambda: [4, p[1]]}[p[0]]()
 
 
+def gen_tables(repo, gen_dir):
+    import core
+    from translate import templates
+    return templates.generate(repo, gen_dir, core.write_if_changed)
+
+
 # ---- streams --------------------------------------------------------------------------------------------
 
 def streams(rng, tier, boost):
@@ -447,6 +469,10 @@ def streams(rng, tier, boost):
         out.append(('random-esc', dict(kind='esc', which=rng.choice(['e', 'html0', 'html1']), s=rand_payload(rng, verbatim=True))))
     for _ in range(n):
         out.append(('spec-vs-htmlparser', dict(kind='tok', s=rand_tok_string(rng))))
+    for w in words(PT_SMALL, 4 if thorough else 3):
+        out.append(('exhaustive-post-tags', dict(kind='ptags', which=len(w) % 2, hi=0, s=w)))
+    for _ in range(n):
+        out.append(('random-post-tags', dict(kind='ptags', which=rng.choice([0, 1]), hi=rng.choice([0, 0, 1]), s=rand_tagstring(rng))))
     for _ in range((120 if not thorough else 1200) * boost):
         out.append(('tree', dict(kind='tree', tpls=rand_templates(rng), tree=rand_tree(rng, rng.choice([1, 2, 3])))))
     # forged image placeholders (known finding C12-placeholder-forged-image-name) and C1 controls (C12-highchar-c1)
@@ -456,7 +482,7 @@ def streams(rng, tier, boost):
     out.append(('c1-controls', dict(kind='c1', text='a\u0085b')))
     out.append(('c1-controls', dict(kind='c1', text='\u0080\u0099')))
     # documents
-    nd = (70 if not thorough else 1400) * boost
+    nd = (500 if not thorough else 3000) * boost
     for _ in range(nd):
         out.append(('doc', rand_doc_case(rng)))
     # the positions one at a time with the classic payloads (small scope at document level)
@@ -465,6 +491,10 @@ def streams(rng, tier, boost):
         for renderer, theme in (('HTML5', 'default'), ('XHTML', 'default')) if not thorough else sorted(set(RENDERERS)):
             out.append(('doc-positions', dict(kind='doc', renderer=renderer, theme=theme, hi=i % 2, enc='utf-8', charsub=0,
                                               blocks=all_positions(pay))))
+    # leaves that are blank for Unicode but not for HTML: a paragraph / a cell holding only a no-break space
+    for renderer, theme in (('HTML5', 'default'), ('XHTML', 'default'), ('HTML5', 'minimal'), ('XHTML', 'plain')):
+        for payload in ('\u00a0', '~'):      # the character itself and LaTeX's tie
+            out.append(('doc-blank-leaves', dict(kind='blank', renderer=renderer, theme=theme, payload=payload)))
     # unencodable characters (known finding C12-unencodable-output-encoding)
     out.append(('doc-unencodable', dict(kind='doc', renderer='HTML5', theme='default', hi=1, enc='ascii', charsub=0,
                                         blocks=[['sec', 'section', 'T', None], ['para', [['text', '\u00e9']]]])))
@@ -537,6 +567,10 @@ def model_input(case):
         return {'e': [2, S(case['s'])], 'html0': [3, 0, S(case['s'])], 'html1': [3, 1, S(case['s'])]}[case['which']]
     if k == 'tok':
         return [4, S(case['s'])]
+    if k == 'ptags':
+        return [9, case['which'], case['hi'], S(case['s'])]
+    if k == 'blank':
+        return [0, 0, S(case['payload'])]
     if k == 'tree':
         return [6, [[name_code(nm), [wire_piece(p) for p in pieces]] for nm, pieces in case['tpls']], wire_tree(case['tree'])]
     if k == 'doc':
@@ -738,6 +772,10 @@ def run_impl(case):
     if k == 'tok':
         t, n = htmlparse_text(case['s'])
         return ['tok', t, n]
+    if k == 'ptags':
+        return ['ptags', _post_tags(case)]
+    if k == 'blank':
+        return ['blank', [_blank_text(case, hi) for hi in (0, 1)]]
     if k == 'tree':
         return run_tree(case)
     if k == 'doc':
@@ -775,6 +813,46 @@ def run_impl(case):
                             twin_data=[[f, i] for f, i, _ in tdata], twin_attr=[[f, c, i] for f, c, i, _ in tattr],
                             skel_diff=skel_diff, ascii=ascii_ok)]
     raise ValueError(k)
+
+
+_PT = {}
+
+
+def _post_tags(case):
+    """the real HTML5 / XHTML processFileContent (placeholders, high characters, then the tag clean-ups)"""
+    which = 'XHTML' if case['which'] else 'HTML5'
+    if which not in _PT:
+        from render_common import make_config
+        from plasTeX.TeX import TeXDocument
+        if which == 'HTML5':
+            from plasTeX.Renderers.HTML5 import Renderer as R
+        else:
+            from plasTeX.Renderers.XHTML import Renderer as R
+        doc = TeXDocument(config=make_config(which))
+        doc.rendererdata['html5'] = {}
+        r = R()
+        r.imager = _Fake({})
+        r.vectorImager = _Fake({})
+        _PT[which] = (r, doc)
+    r, doc = _PT[which]
+    doc.config['files']['escape-high-chars'] = bool(case['hi'])
+    return r.processFileContent(doc, case['s'])
+
+
+def _blank_text(case, hi):
+    from render_common import render
+    p = case['payload']
+    src = ('\\documentclass{article}\\begin{document}\\section{S}\nQZ0AaQZ0B\n\n%s\n\nQZ1AbQZ1B\n\n'
+           '\\begin{tabular}{ll}QZ2AcQZ2B & %s \\\\\\end{tabular}\n\nQZ3AdQZ3B\n\\end{document}\n') % (p, p)
+    res = render(src, case['renderer'], case['theme'], bool(hi), 'utf-8')
+    out = []
+    for name in sorted(res.files):
+        if name.endswith('.html'):
+            txt = ''.join(Events(res.files[name].decode('utf-8')).data)
+            m = re.search(r'QZ0B(.*)QZ3A', txt, re.S)
+            if m:
+                out.append(m.group(1))
+    return out
 
 
 def run_tree(case):
@@ -833,7 +911,7 @@ def lookalike(s):
 
 def nontrivial(case, io):
     k = case['kind']
-    txt = ''.join(doc_leaves(case['blocks'])) if k == 'doc' else case.get('s', case.get('text', ''))
+    txt = ''.join(doc_leaves(case['blocks'])) if k == 'doc' else case.get('s', case.get('text', case.get('payload', '')))
     if k == 'tree':
         return True
     return any(c in '<>&"\'' or ord(c) > 127 for c in txt)
@@ -913,6 +991,24 @@ def judge(case, io, mo):
             return None
         return dict(violation=False, key='C12:spec-vs-htmlparser', expected=[txt, n],
                     what='html.parser reads %r as text %r with %d markup events; the Spec tokenizer: %r with %d' % (case['s'], io[1], io[2], txt, n))
+    if k == 'ptags':
+        if io[:1] == ['ptags'] and mo == [0, S(io[1])]:
+            return None
+        viol = False
+        if io[:1] == ['ptags']:
+            # the clean-ups may drop blanks and fill an empty cell with a no-break space; nothing else may happen to character data
+            a, b = htmlparse_text(case['s'])[0], htmlparse_text(io[1])[0]
+            vis = lambda x: ''.join(c for c in x if c not in ' \t\n\r\x0b\x0c\u00a0')
+            viol = vis(a) != vis(b) or b.count('\u00a0') < a.count('\u00a0')
+        return dict(violation=viol, key='C12:post-tags:' + ('text-changed' if viol else 'model-differs'),
+                    expected=unS(mo[1]) if mo[:1] == [0] else mo, what='%s.processFileContent(%r) = %r' % (
+                        'XHTML' if case['which'] else 'HTML5', case['s'], io[1] if len(io) > 1 else io))
+    if k == 'blank':
+        if io[:1] == ['blank'] and io[1][0] == io[1][1] and io[1][0] and all('\u00a0' in x for x in io[1][0]):
+            return None
+        return dict(violation=True, key='C12:blank-leaf-dropped', expected='the same decoded text with and without escape-high-chars, holding the character',
+                    what='a paragraph / table cell holding only U+%04X: text between the neighbours without the option %r, with it %r' % (
+                        0xa0, io[1][0] if io[:1] == ['blank'] else io, io[1][1] if io[:1] == ['blank'] else None))
     if k == 'tree':
         if io[:1] == ['tree'] and mo == [0, S(io[1])]:
             return None
@@ -945,7 +1041,7 @@ def judge_doc(case, io, mo):
         if got != [p]:
             return dict(violation=False, key='C12:harness:dom-prediction', what='leaf %d: payload %r is in the DOM as %r' % (i, p, got), expected=p)
     look = any(lookalike(p) for p in payloads)
-    suffix = ':placeholder-lookalike' if look else ''
+    suffix = ''
     # (b) inventory
     if o['skel_diff']:
         return dict(violation=True, key='C12:doc:markup-injected' + suffix, expected='the element/attribute inventory of the harmless twin',
@@ -985,7 +1081,7 @@ def judge_doc(case, io, mo):
 
 def shrink(case):
     k = case['kind']
-    if k in ('td', 'pfc', 'esc', 'tok'):
+    if k in ('td', 'pfc', 'esc', 'tok', 'ptags'):
         s = case['s']
         for i in range(len(s)):
             yield dict(case, s=s[:i] + s[i + 1:])
@@ -994,6 +1090,11 @@ def shrink(case):
         return
     if k == 'doc':
         blocks = case['blocks']
+        if len(blocks) > 2:
+            for i in range(len(blocks)):           # one block alone, or with the block that follows it
+                yield dict(case, blocks=[blocks[i]])
+            for i in range(len(blocks) - 1):
+                yield dict(case, blocks=blocks[i:i + 2])
         for i in range(len(blocks)):
             if len(blocks) > 1:
                 yield dict(case, blocks=blocks[:i] + blocks[i + 1:])
